@@ -30,6 +30,10 @@ from harness.common import Ctx, InfraError, Toks, call, toks
 LEVEL = "proof"
 RULE = ("cases = (AST of the documented syntax, concrete rendering with redundant parentheses/blanks — also blanks "
         "inside quantifier braces and leading zeros in bounds —, alphabet); "
+        "round 3, run first: 700 (thorough 12000) PROGRAMS of 1–5 calls over an alphabet no earlier call of the process has "
+        "touched (validate / a tiny compile / a call that must raise first, then from_regex with the explicit or the default "
+        "alphabet, sometimes again / over Σ∪{x} / a second expression; `()` in 70 % of the expressions), every compiled NFA judged "
+        "by both oracles and compared with the model; then "
         "corpus of past defects, then every AST of depth ≤1 over {a,b} with all bounds from {∅,0,1,2,3} in three "
         "renderings (thorough: depth ≤2 with a reduced bound set), then shaped random ASTs of depth ≤4 with bounds "
         "from {∅,0..6,007,10,12} over alphabets of 1–7 symbols incl. the characters 1 , - é 𝒳; "
@@ -40,6 +44,9 @@ ASSUMPTIONS = [
     "Python re / int() / set / dict are modelled by hand (trusted); compiled NFAs are compared up to isomorphism "
     "AND on their sets of state names (the counter is reproduced; only the assignment inside a renamed block may "
     "be permuted)",
+    "the property is about inputs, so no result may depend on earlier calls: a failing case is re-run as the first call of a "
+    "fresh interpreter; if it does not fail there its replay is the recorded calls of the run over the same alphabet "
+    "(else all recorded calls) followed by the case",
     "repetition bounds in generated cases are ≤12 (the theorems have no bound); NFAs with more than 140 states are "
     "skipped (counted, and reported as a note)",
 ]
